@@ -616,6 +616,11 @@ func (p *IdP) MintIDToken(u *User, spec *TokenSpec) string {
 	return SignJWT(claims, spec.Signer)
 }
 
+var (
+	sigMu    sync.Mutex
+	sigCache = map[string]string{}
+)
+
 // SignJWT serialises claims and signs them the way `signer` says.
 func SignJWT(claims map[string]any, signer string) string {
 	genKeys()
@@ -631,12 +636,29 @@ func SignJWT(claims map[string]any, signer string) string {
 	}
 	rs := func(k *rsa.PrivateKey, kid string) string {
 		in := hdr("RS256", kid) + "." + enc(payload)
+		// PKCS #1 v1.5 signatures are a pure function of key and input (Go ignores the random
+		// source here): memoised, because history searches mint the same token (same claims, same
+		// virtual time) many thousands of times
+		ck := signer + "\x00" + in
+		sigMu.Lock()
+		cached, ok := sigCache[ck]
+		sigMu.Unlock()
+		if ok {
+			return cached
+		}
 		sum := sha256.Sum256([]byte(in))
 		sig, err := rsa.SignPKCS1v15(rand.Reader, k, crypto.SHA256, sum[:])
 		if err != nil {
 			panic(err)
 		}
-		return in + "." + enc(sig)
+		out := in + "." + enc(sig)
+		sigMu.Lock()
+		if len(sigCache) >= 4096 {
+			sigCache = map[string]string{}
+		}
+		sigCache[ck] = out
+		sigMu.Unlock()
+		return out
 	}
 	switch signer {
 	case "", "main":
